@@ -80,7 +80,7 @@ impl Engine for Cfgx {
             vec![
                 Stage {
                     name: "redis-config".into(),
-                    cases: if thorough { 16 * 60000 } else { 16 * 4000 },
+                    cases: if thorough { 16 * 100000 } else { 16 * 12000 },
                     strategy: rds::case(false).prop_map(Case::Redis).boxed(),
                 },
                 Stage {
